@@ -383,7 +383,7 @@ theorem write_marks_clean_only_if_whole (ed ed1 ed2 ed3 ed4 : Ed) (loc cmd arg p
     (hx : (if cmd.headD 0 == 120 then some (ed1.modifiedAt 0) else some (true, ed1) : Option (Bool × Ed)) = some (true, ed2))
     (hr : exRegion ed2 loc = some ((0, b0, e0), ed3))
     (hc : ed3.cur = some cur) (hsh : path.headD 0 ≠ 33)
-    (hbe : (if loc.isEmpty then ((0 : Int), ed3.len) else (b0, e0)) = (b, e))
+    (hbe : (if loc.isEmpty then ((0 : Int), ed3.len) else (b0, e0)) = (b, e)) (hpne : path ≠ [])
     (hs : lbufSave ed3 cur.lb b.toNat e path (hasBang cmd) (if cur.path == path then cur.mtime else 0) = some (none, ed4)) :
     ∃ ed5 c5, ecWrite ed loc cmd arg = some (0, ed5) ∧ ed5.cur = some c5 ∧ ed5.files = ed4.files ∧
       ed4.bufs = ed3.bufs ∧
@@ -395,7 +395,7 @@ theorem write_marks_clean_only_if_whole (ed ed1 ed2 ed3 ed4 : Ed) (loc cmd arg p
       (¬ (cur.path = path ∨ cur.path = []) → c5.lb = cur.lb) := by
   have hb4 := lbufSave_bufs _ _ _ _ _ _ _ _ _ hs
   have hc4 : ed4.cur = some cur := by rw [cur_congr hb4, hc]
-  rw [ecWrite_unfold ed ed1 ed2 ed3 ed4 loc cmd arg path b0 e0 b e cur hpr hx hr hc hsh hbe hs]
+  rw [ecWrite_unfold ed ed1 ed2 ed3 ed4 loc cmd arg path b0 e0 b e cur hpr hx hr hc hsh hbe hpne hs]
   generalize hm : ([34] ++ path ++ strOf "\"  [=" ++ intStr (e - b) ++ strOf "]  [w]") = m
   have hlen : (ed4.show m).len = ed3.len := len_congr (ed := ed3) (ed' := ed4.show m) hb4
   obtain ⟨ed5, c5, h1, h2, h3, h4, h5, h6, h7⟩ := writeFinish_spec (ed4.show m) cur path b e hc4
